@@ -366,3 +366,47 @@ def gen_cut(seed, opts=None):
     else:
         plan['faults'].append({'kind': 'reset', 'at': round(0.01 + rng.uniform(0, 0.03), 5), 'hops': rng.randint(0, 5)})
     return plan
+
+
+def gen_core_lease(seed, opts=None):
+    """Core profile with a lease-honouring client and a server that publishes leases late, so
+    that requests (and the REQUEST_N / CANCEL the application issues for them) wait in the queue."""
+    opts = dict(opts or {})
+    rng = random.Random(seed ^ 0x1EA5)
+    opts.setdefault('by', [(1, 'client')])
+    opts.setdefault('kinds', [(3, 'rr'), (3, 'stream'), (3, 'channel'), (1, 'fnf')])
+    opts.setdefault('cancels', 0.3)
+    opts.setdefault('stall_faults', 0.0)
+    opts.setdefault('keepalive', False)
+    plan = gen_core(seed, opts)
+    plan['profile'] = opts.get('name', 'core-lease')
+    plan['client']['honor_lease'] = True
+    plan['client']['request_queue_size'] = _pick(rng, [(3, 0), (1, 5)])
+    leases = []
+    t = _pick(rng, [(1, 0.0), (2, 0.012), (2, 0.02), (1, 0.2)])
+    for _ in range(rng.randint(1, 3)):
+        leases.append({'at': round(t, 4), 'n': _pick(rng, [(1, 1), (1, 2), (2, 50)]), 'ttl_us': _pick(rng, [(1, 5_000), (2, 10_000_000)])})
+        t += _pick(rng, [(1, 0.01), (1, 0.1)])
+    # a last generous lease so that every retained request is eventually released
+    leases.append({'at': round(t + 0.05, 4), 'n': 1000, 'ttl_us': 600_000_000})
+    plan['server']['lease_script'] = leases
+    for ia in plan['interactions']:
+        ia['by'] = 'client'
+        sub = ia.get('sub')
+        if sub is not None and rng.random() < 0.4:
+            sub['extra'] = [[round(rng.uniform(0, 0.005), 5), rng.randint(1, 3)]]
+    return plan
+
+
+def gen_core_eager(seed, opts=None):
+    """Core profile whose requester subscribers call request(n) inside on_subscribe."""
+    opts = dict(opts or {})
+    rng = random.Random(seed ^ 0xEA6E)
+    opts.setdefault('kinds', [(4, 'stream'), (4, 'channel'), (1, 'rr')])
+    opts.setdefault('cancels', 0.0)
+    plan = gen_core(seed, opts)
+    plan['profile'] = opts.get('name', 'core-eager')
+    for ia in plan['interactions']:
+        if ia.get('sub') is not None and rng.random() < 0.7:
+            ia['sub']['in_subscribe'] = rng.randint(1, 5)
+    return plan
